@@ -405,7 +405,22 @@ fn try_mutate(rng: &mut Rng, cfg: &DocCfg, doc: &mut Value) -> Option<&'static s
                 o.remove(META_KEY)?;
                 Some("meta-gone")
             } else {
-                let f = fields(rng, cfg);
+                let mut f = fields(rng, cfg);
+                // sometimes the single flattened object carries its own identifier
+                if rng.chance(1, 3) {
+                    let keep = o.get(META_KEY).and_then(|m| m.get("_id")).and_then(|x| x.as_str()).map(|s| s.to_string());
+                    let id = match keep {
+                        Some(k) if rng.chance(2, 3) => Some(k),
+                        _ => {
+                            let mut without = Value::Object(o.clone());
+                            without.as_object_mut().unwrap().remove(META_KEY);
+                            free_id(rng, cfg, &without)
+                        }
+                    };
+                    if let Some(id) = id {
+                        f.insert("_id".to_string(), Value::from(id));
+                    }
+                }
                 o.insert(META_KEY.to_string(), Value::Object(f));
                 Some("meta-set")
             }
@@ -583,7 +598,10 @@ pub fn tracked_objects(doc: &Value) -> Result<std::collections::BTreeMap<String,
         };
         let plain: Map<String, Value> = o
             .iter()
-            .filter(|(k, v)| *k != "_id" && (!k.ends_with(FLAT) || !(v.is_object() || v.is_array())))
+            // flattened keys are left out altogether: while an array is in conflict an object that the
+            // user moved from that array into a single flattened position may still be claimed by the
+            // array (membership "may still reflect the pending merge"), leaving null at the new place
+            .filter(|(k, _)| *k != "_id" && !k.ends_with(FLAT))
             .map(|(k, v)| (k.clone(), v.clone()))
             .collect();
         if out.insert(id.clone(), plain).is_some() {
@@ -611,4 +629,20 @@ pub fn tracked_objects(doc: &Value) -> Result<std::collections::BTreeMap<String,
     let mut out = Out::new();
     add(doc.as_object().ok_or("not an object")?, &mut out)?;
     Ok(out)
+}
+
+/// True when the document holds a flattened *single* object (not an array element) whose
+/// identifier starts with '!' — the input shape of known finding F15.
+pub fn has_bang_single_object(doc: &Value) -> bool {
+    fn obj(o: &Map<String, Value>) -> bool {
+        o.iter().any(|(k, v)| k.ends_with(FLAT) && flat(v, true))
+    }
+    fn flat(v: &Value, single: bool) -> bool {
+        match v {
+            Value::Object(o) => (single && o.get("_id").and_then(|x| x.as_str()).map_or(false, |s| s.starts_with('!'))) || obj(o),
+            Value::Array(a) => a.iter().any(|x| flat(x, false)),
+            _ => false,
+        }
+    }
+    doc.as_object().map_or(false, obj)
 }
